@@ -29,12 +29,20 @@ sys.setrecursionlimit(20000)
 _CALL_RE = re.compile(r'when calling (\w+)\((.*)\)\s*$', re.S)
 
 
-def _parse_args(message: str):
+def _parse_args(message: str, fn=None):
     m = _CALL_RE.search(message.strip())
     if not m:
         return None
     try:
-        return eval('dict(%s)' % m.group(2), {'__builtins__': {}}, {'dict': dict, 'True': True, 'False': False, 'None': None})
+        def collect(*a, **k):
+            return a, k
+        a, k = eval('collect(%s)' % m.group(2), {'__builtins__': {}},
+                    {'collect': collect, 'True': True, 'False': False, 'None': None})
+        if a:
+            import inspect
+            names = list(inspect.signature(fn).parameters)
+            k.update(dict(zip(names, a)))
+        return k
     except Exception:
         return None
 
@@ -54,7 +62,8 @@ def _install_solver_counter(stats):
 
 
 def analyze(modname, cond_timeout, path_timeout, cells):
-    from crosshair.core_and_libs import analyze_function, run_checkables, AnalysisOptionSet, AnalysisKind, MessageType
+    from crosshair.core_and_libs import analyze_function, run_checkables, AnalysisKind, MessageType
+    from crosshair.options import AnalysisOptionSet
     stats = collections.Counter()
     _install_solver_counter(stats)
     mod = importlib.import_module(modname)
@@ -66,10 +75,11 @@ def analyze(modname, cond_timeout, path_timeout, cells):
         try:
             spec = mod.CELLS[cell]
             fn = spec['fn']
+            assert fn.__name__ == fn.__code__.co_name, 'renamed cell functions hide assertion failures from CrossHair'
             ct = float(spec.get('timeout', cond_timeout)) if cond_timeout <= 0 else cond_timeout
             counter = collections.Counter()
             opts = AnalysisOptionSet(
-                analysis_kind=[AnalysisKind.PEP316],
+                analysis_kind=[AnalysisKind.PEP316 if spec.get('kind') == 'pep316' else AnalysisKind.asserts],
                 per_condition_timeout=ct,
                 per_path_timeout=path_timeout,
                 report_all=True,
@@ -83,7 +93,7 @@ def analyze(modname, cond_timeout, path_timeout, cells):
             bad = [m for m in msgs if m.state in (MessageType.POST_FAIL, MessageType.EXEC_ERR, MessageType.POST_ERR, MessageType.PRE_INVALID if hasattr(MessageType, 'PRE_INVALID') else MessageType.POST_ERR)]
             if bad:
                 out['status'] = 'refuted'
-                out['cex'] = _parse_args(bad[0].message)
+                out['cex'] = _parse_args(bad[0].message, fn)
                 out['cex_message'] = bad[0].message[:2000]
                 out['cex_traceback'] = (bad[0].traceback or '')[-3000:]
             elif MessageType.PRE_UNSAT in states:
